@@ -114,6 +114,37 @@ theorem strchrP_hit {st : St} (h : AllRd st) (c fuel s k : Nat) (hk : k < fuel)
         (by simpa [Nat.add_assoc, Nat.add_comm 1 k] using hat)]
       simp [Nat.add_assoc, Nat.add_comm 1 k]
 
+/-- whatever `strchr` returns is NULL or a pointer not below its argument -/
+theorem strchrP_ge {st : St} (h : AllRd st) (c fuel s : Nat) :
+    ∃ r, exec (strchrP c fuel s) st = .ok (r, st) ∧ (r = 0 ∨ s ≤ r) := by
+  induction fuel generalizing s with
+  | zero => exact ⟨0, by simp [strchrP], Or.inl rfl⟩
+  | succ f ih =>
+    simp only [strchrP, exec_bind, exec_load_all h]
+    by_cases hc : st.data s = c
+    · exact ⟨s, by simp [hc], Or.inr (Nat.le_refl _)⟩
+    · by_cases h0 : st.data s = 0
+      · have hc' : ¬ (0 = c) := fun e => hc (by rw [h0]; exact e)
+        exact ⟨0, by simp [h0, hc'], Or.inl rfl⟩
+      · obtain ⟨r, hr, hge⟩ := ih (s+1)
+        exact ⟨r, by simp [hc, h0, hr], by omega⟩
+
+/-- `strchr` when none of the first `n` cells is `c` or NUL: NULL or a pointer at least `n` cells on -/
+theorem strchrP_far {st : St} (h : AllRd st) (c fuel s n : Nat)
+    (hbefore : ∀ j, j < n → st.data (s+j) ≠ c ∧ st.data (s+j) ≠ 0) :
+    ∃ r, exec (strchrP c fuel s) st = .ok (r, st) ∧ (r = 0 ∨ s + n ≤ r) := by
+  induction n generalizing s fuel with
+  | zero => simpa using strchrP_ge h c fuel s
+  | succ n ih =>
+    cases fuel with
+    | zero => exact ⟨0, by simp [strchrP], Or.inl rfl⟩
+    | succ f =>
+      have h0 := hbefore 0 (by omega)
+      simp only [Nat.add_zero] at h0
+      obtain ⟨r, hr, hge⟩ := ih f (s+1) (fun j hj => by
+        have := hbefore (j+1) (by omega); simpa [Nat.add_assoc, Nat.add_comm 1 j] using this)
+      exact ⟨r, by simp [strchrP, exec_bind, exec_load_all h, h0.1, h0.2, hr], by omega⟩
+
 /-! ## `strfirstchar_s`, `strlastchar_s` -/
 
 theorem firstcharLoop_eq {st : St} (h : AllRd st) (c dmax dest : Nat) :
@@ -370,5 +401,36 @@ theorem wcscmpLoop_eq {st : St} (h : AllRd st) (useCount : Bool) (dmax smax coun
               rw [ih, hb]
               simp [stopIdx, h1, he, Nat.add_assoc, Nat.add_comm 1]
             · simp [he, hb, stopIdx, h0, h1]
+
+/-! ## arithmetic of the `int` conversions -/
+
+theorem subS32_exact (a b : Nat) (h1 : -(2^31 : Int) ≤ toS32 a - toS32 b) (h2 : toS32 a - toS32 b < 2^31) :
+    subS32 a b = toS32 a - toS32 b := by
+  unfold subS32
+  simp only [Int.reducePow] at h1 h2 ⊢
+  generalize toS32 a - toS32 b = x at h1 h2
+  by_cases hx : 0 ≤ x
+  · have : x % 4294967296 = x := Int.emod_eq_of_lt hx (by omega)
+    simp only [this]; split <;> omega
+  · have : x % 4294967296 = x + 4294967296 := by omega
+    simp only [this]; split <;> omega
+
+theorem firstDiff_self (d : Nat → Nat) (p n : Nat) : firstDiff d p p n = none := by
+  induction n generalizing p with
+  | zero => rfl
+  | succ n ih => simp [firstDiff, ih (p+1)]
+
+theorem toInt32_diff (a b : Nat) (_ha : a < 2^32) (_hb : b < 2^32)
+    (h1 : -(2^31 : Int) ≤ (a : Int) - (b : Int)) (h2 : (a : Int) - (b : Int) < 2^31) :
+    toInt32 (a + 2^32 - b) = (a : Int) - (b : Int) := by
+  unfold toInt32
+  simp only [Nat.reducePow, Int.reducePow] at *
+  by_cases hab : b ≤ a
+  · have e : (a + 4294967296 - b) % 4294967296 = a - b := by omega
+    simp only [e, Int.ofNat_eq_natCast]
+    split <;> omega
+  · have e : (a + 4294967296 - b) % 4294967296 = a + 4294967296 - b := by omega
+    simp only [e, Int.ofNat_eq_natCast]
+    split <;> omega
 
 end SafeC
